@@ -335,6 +335,63 @@ def gen_marking_cases(run, desc):
     return out
 
 
+EXT_A = "extension-definition--11111111-1111-4111-8111-111111111111"
+EXT_B = "extension-definition--22222222-2222-4222-8222-222222222222"
+EXT_C = "extension-definition--33333333-3333-4333-8333-333333333333"
+EXT_D = "extension-definition--44444444-4444-4444-8444-444444444444"
+
+
+def gen_custom_registry_cases(run, desc):
+    """run in a worker process in which user classes were registered through the public decorators
+    (c17_impl.register_custom): objects carrying none / one / several registered extensions, the custom
+    types themselves, valid and wrong-kind values for the extension-defined properties.  Observed: the
+    escaping class and a DEEP snapshot of the registries (class objects, property tables) around each call."""
+    rng = run.rng
+    tl = {"extension_type": "toplevel-property-extension"}
+    hosts = [identity21(),
+             {"type": "file", "spec_version": "2.1", "id": "file--" + UUID4, "name": "x"},
+             {"type": "x-c17-thing", "spec_version": "2.1", "id": "x-c17-thing--" + UUID4, "created": TS, "modified": TS, "size": 3,
+              "extensions": {EXT_D: {"extension_type": "new-sdo"}}},
+             {"type": "x-c17-obs", "spec_version": "2.1", "id": "x-c17-obs--" + UUID4, "val": "v"},
+             {"type": "marking-definition", "spec_version": "2.1", "id": "marking-definition--" + UUID4, "created": TS,
+              "definition_type": "x-c17-marking", "definition": {"note": "n"}},
+             {"type": "x-c17-thing", "id": "x-c17-thing--" + UUID4, "created": TS, "modified": TS, "size": 3}]
+    ext_sets = [[], [EXT_A], [EXT_B], [EXT_A, EXT_B], [EXT_B, EXT_A], [EXT_A, EXT_C], [EXT_A, EXT_B, EXT_C], [EXT_A, "foo-ext"],
+                [EXT_A, "extension-definition--" + UUID4B]]
+    tl_vals = {"a_note": ["x"] + KINDS, "b_rank": [3, -3] + KINDS, "b_tags": [["t"]] + KINDS}
+    out = []
+    kinds = KINDS if run.tier == "thorough" else FEW_KINDS
+    for h in hosts:
+        for es in ext_sets:
+            exts = dict(h.get("extensions", {}))
+            for e in es:
+                exts[e] = {"extension_type": "property-extension", "c_val": "c"} if e == EXT_C else dict(tl)
+            base = dict(h)
+            if exts:
+                base["extensions"] = exts
+            props = (["a_note"] if EXT_A in es else []) + (["b_rank", "b_tags"] if EXT_B in es else [])
+            variants = [dict(base)]
+            good = dict(base)
+            for pn in props:
+                good[pn] = tl_vals[pn][0]
+            variants.append(good)
+            for pn in ("a_note", "b_rank", "b_tags"):
+                for v in (tl_vals[pn] if run.tier == "thorough" else tl_vals[pn][:2] + rng.sample(KINDS, 3)):
+                    variants.append(dict(good, **{pn: v}))
+            # a failing slot elsewhere, with the extensions in place
+            for k in list(h.keys()):
+                if k != "extensions":
+                    variants.append(dict(good, **{k: rng.choice(kinds)}))
+            for e in es:
+                for v in rng.sample(KINDS, 2):
+                    ex2 = dict(exts)
+                    ex2[e] = v
+                    variants.append(dict(good, extensions=ex2))
+            for d in variants:
+                out.append({"op": "parse", "data": d, "allow_custom": rng.random() < 0.2})
+    return out
+
+
 def gen_store_cases(run, desc):
     rng = run.rng
     out = []
@@ -503,25 +560,26 @@ def model_term(case, desc, I):
         return "PO %s %s %s %s %s" % (dec_term(data, I), value_term(case, I), vr, ac, ver)
     if op == "store_add":
         if isinstance(data, list):
-            return "show_store_outcomes (store_add_list VAR live clean_any nodec [] %s %s)" % (
+            return "show_store_outcomes (store_add_list VAR live clean_any RF nodec [] %s %s)" % (
                 common.coq_list([I.j(x) for x in data]), ver)
-        return "show_store_outcomes (store_add_one VAR live clean_any %s [] %s %s)" % (dec_term(data, I), value_term(case, I), ver)
+        return "show_store_outcomes (store_add_one VAR live clean_any RF %s [] %s %s)" % (dec_term(data, I), value_term(case, I), ver)
     return None
 
 
 HELPERS = """Definition nodec : decoder := dec_table [].
 Definition tkey : ustring := u "t".
-Definition PV dec x ac ver := show_MP (parse VAR live clean_any dec x ac ver).
-Definition PT tr ac ver := show_MP (parse VAR live clean_any (fun _ => tr) (JStr tkey) ac ver).
+Definition PV dec x ac ver := show_MP (parse VAR live clean_any RF dec x ac ver).
+Definition PT tr ac ver := show_MP (parse VAR live clean_any RF (fun _ => tr) (JStr tkey) ac ver).
 Definition PC dec c ac x := show_MU (call_check (kw_of x) false ;;; construct VAR live clean_any dec c ac (kw_of x)).
-Definition PO dec x vr ac ver := show_MP (parse_observable VAR live clean_any dec x vr ac ver).
-Definition POT tr vr ac ver := show_MP (parse_observable VAR live clean_any (fun _ => tr) (JStr tkey) vr ac ver).
+Definition PO dec x vr ac ver := show_MP (parse_observable VAR live clean_any RF dec x vr ac ver).
+Definition POT tr vr ac ver := show_MP (parse_observable VAR live clean_any RF (fun _ => tr) (JStr tkey) vr ac ver).
 """
 
 
-def eval_model(tag, cases, desc, unguarded, shard=400, timeout=900):
+def eval_model(tag, cases, desc, unguarded, shard=400, timeout=900, refuse=False):
     """evaluate the model on the cases (None for cases without a model term); per-shard headers carry the base objects"""
-    var = "Definition VAR : variant := unguarded_at (sites_named %s).\n" % common.coq_list([common.coq_str(t) for t in unguarded])
+    var = "Definition VAR : variant := unguarded_at (sites_named %s).\nDefinition RF : bool := %s.\n" % (
+        common.coq_list([common.coq_str(t) for t in unguarded]), common.coq_bool(refuse))
     cases_dir = os.path.join(common.COQ, "Cases")
     os.makedirs(cases_dir, exist_ok=True)
     jobs = []
@@ -650,6 +708,7 @@ SITE_FNS = {
     "json-text-nesting-depth": {"utils._get_dict"},
 }
 
+MODE = {"refuse_custom": False}
 SIGNATURES = {}     # (class, function, source line, normalised message) of each witness's escape -> finding id
 
 
@@ -693,9 +752,10 @@ def oracle_one(case, r, mset):
             "%s on %s raised %s (%s) from %s: %s" % (case["op"], short(case), r.get("cls"), "outside the documented family",
                                                      r.get("fn"), (r.get("msg") or "")[:80]),
             {"kind": "family", "case": case}, finding=fid))
-    if r.get("reg_same") is False:
-        out.append(Violation("%s on %s changed the class registries" % (case["op"], short(case)),
-                             {"kind": "registry", "case": case}))
+    if r.get("reg_same") is False and r["out"] == "Raise":
+        out.append(Violation("%s on %s failed (%s) and changed the class registries (deep snapshot: class objects / property "
+                             "tables of a registered class differ)" % (case["op"], short(case), r.get("cls")),
+                             {"kind": "registry", "case": case, "custom_registry": bool(case.get("_custom"))}))
     if case["op"] == "store_add" and r["out"] == "Raise" and r.get("construct_failed") and r.get("store_same") is False \
             and not isinstance(case.get("data"), list):
         out.append(Violation("store.add of %s failed (%s) but changed the store" % (short(case), r.get("cls")),
@@ -717,7 +777,11 @@ def short(case):
 def run_witnesses():
     ws = witnesses()
     tags = list(ws)
-    res = common.run_impl("c17_impl", [ws[t] for t in tags], procs=2)
+    probe = {"op": "parse", "allow_custom": False, "data": identity21(custom_properties={"x_a": 1})}
+    res = common.run_impl("c17_impl", [ws[t] for t in tags] + [probe], procs=2)
+    pr = res.pop()
+    # parsing._refuse_unrequested_custom (present from fix c6e00f7 on): a mode of the model, not a defect site
+    MODE["refuse_custom"] = pr["out"] == "Raise" and pr.get("cls") == "CustomContentError"
     unguarded = []
     for t, r in zip(tags, res):
         if r["out"] == "Raise" and not r.get("family"):
@@ -765,7 +829,8 @@ def check(run):
         return
 
     unguarded, wres = run_witnesses()
-    run.coverage["variant"] = {"unguarded_sites": unguarded, "guarded_sites": [t for t in SITE_TAGS if t not in unguarded]}
+    run.coverage["variant"] = {"unguarded_sites": unguarded, "guarded_sites": [t for t in SITE_TAGS if t not in unguarded],
+                               "refuse_unrequested_custom": MODE["refuse_custom"]}
 
     cases = gen_slot_cases(run, desc) + gen_raw_cases(run) + gen_marking_cases(run, desc) + gen_store_cases(run, desc)
     ws = witnesses()
@@ -791,7 +856,7 @@ def check(run):
     msets = [None] * len(cases)
     if model_ok:
         try:
-            lines = eval_model("c17", cases, desc, unguarded)
+            lines = eval_model("c17", cases, desc, unguarded, refuse=MODE["refuse_custom"])
             dis = []
             n_model = 0
             for i, (c, r, line) in enumerate(zip(cases, impl, lines)):
@@ -823,7 +888,20 @@ def check(run):
 
     for c, r, mset in zip(cases, impl, msets):
         run.violations += oracle_one(c, r, mset)
-    herr = [r for r in impl if r["out"] == "HarnessError"]
+    # user-registered classes (public decorators) in a separate worker process: oracle only
+    ccases = gen_custom_registry_cases(run, desc)
+    for c in ccases:
+        c["_custom"] = True
+    cimpl = common.run_impl("c17_impl", ccases, procs=2, args=("custom",))
+    run.coverage["custom_registry_cases"] = len(ccases)
+    chist = {}
+    for c, r in zip(ccases, cimpl):
+        run.count(c)
+        k = r.get("cls") if r["out"] == "Raise" else r["out"]
+        chist[k] = chist.get(k, 0) + 1
+        run.violations += oracle_one(c, r, None)
+    run.coverage["custom_registry_histogram"] = chist
+    herr = [r for r in list(impl) + list(cimpl) if r["out"] == "HarnessError"]
     if herr:
         run.notes.append("%d harness errors in the worker, e.g. %s" % (len(herr), herr[0].get("msg")))
 
@@ -859,14 +937,14 @@ def check(run):
 def replay(payload):
     r = payload["replay"]
     case = r["case"]
-    res = common.run_impl("c17_impl", [case], procs=1)[0]
+    res = common.run_impl("c17_impl", [case], procs=1, args=(("custom",) if case.get("_custom") else ()))[0]
     print("replay %s %s -> %s %s (family=%s) from %s" % (case["op"], short(case), res.get("out"), res.get("cls", ""),
                                                           res.get("family"), res.get("fn")))
     bad = False
     if r.get("kind") == "family":
         bad = res["out"] == "Raise" and not res.get("family")
     elif r.get("kind") == "registry":
-        bad = res.get("reg_same") is False
+        bad = res.get("reg_same") is False and res["out"] == "Raise"
     elif r.get("kind") == "store":
         bad = res["out"] == "Raise" and res.get("store_same") is False
     if bad:
